@@ -260,8 +260,15 @@ impl Task {
     pub fn siblings(&self) -> Vec<Arc<Self>> {
         let mut ret = Vec::new();
         if let Some(parent) = self.parent() {
+            // children are found through the prev link, which also leads from a step to its
+            // successor step: only tasks on this task's own level are its siblings
             let children = parent.children();
-            ret.extend(children.iter().filter(|iter| iter.id != self.id).cloned());
+            ret.extend(
+                children
+                    .iter()
+                    .filter(|iter| iter.id != self.id && iter.node.level == self.node.level)
+                    .cloned(),
+            );
         }
 
         ret
